@@ -117,6 +117,7 @@ pub fn exec_elist(toks: &[&str]) -> String {
     let v: Vec<usize> = toks.iter().map(|t| t.parse().unwrap()).collect();
     let (threads, per, rounds) = (v[0], v[1], v[2]);
     let mut worst = usize::MAX;
+    let mut report = String::new();
     for _ in 0..rounds {
         let head: &'static EntryList<usize> = Box::leak(Box::new(EntryList::new(Box::leak(Box::new(usize::MAX)))));
         let barrier = std::sync::Arc::new(std::sync::Barrier::new(threads));
@@ -137,10 +138,16 @@ pub fn exec_elist(toks: &[&str]) -> String {
         for h in handles {
             h.join().unwrap();
         }
-        let seen: std::collections::HashSet<usize> = head.iter().copied().collect();
-        worst = worst.min(seen.len());
+        // what a reader walking from the head sees, newest first (bounded: a cycle must not hang the lab);
+        // the head's own value is rendered `H`
+        let vals: Vec<usize> = head.iter().copied().take(2 * (threads * per + 1) + 2).collect();
+        let seen: std::collections::HashSet<usize> = vals.iter().copied().collect();
+        if seen.len() < worst || report.is_empty() {
+            worst = worst.min(seen.len());
+            report = vals.iter().map(|v| if *v == usize::MAX { "H".to_string() } else { v.to_string() }).collect::<Vec<_>>().join(",");
+        }
     }
-    worst.to_string()
+    report
 }
 
 pub fn gen_ovw(rng: &mut Rng, n: usize) -> Vec<String> {
